@@ -15,7 +15,7 @@ from crosshair.tracers import NoTracing, is_tracing
 from . import nxproxy
 from .driver import cf_guard, is_control_flow
 from .spec import CUR, Behaviour, RunCtx, Spec, build_classes, make_event_manager, make_store
-from .vloop import Deadlock, Livelock, VLoop
+from .vloop import HOLD, Deadlock, Livelock, VLoop
 
 logging.disable(logging.CRITICAL)
 warnings.simplefilter("ignore")
@@ -190,7 +190,7 @@ def new_loop(cfg: Cfg) -> VLoop:
             return 0
         k = rc.start(name)
         if rc.hold is not None and name in rc.hold:
-            return 10 ** 9  # held open (beyond every other deadline)
+            return HOLD
         return rc.beh.dur(rc.spec.by_name[name], k)
 
     loop.duration_of = duration_of
@@ -252,6 +252,7 @@ def run_engine(spec: Spec, beh: Behaviour, cfg: Optional[Cfg] = None, chart: Any
     n_tasks = len(loop.tasks)
     n_err = len(loop.errors)
     its = loop.iterations
+    rc.frozen = True
     loop.shutdown()
     cf_guard.check()
     return Obs(kind=kind, result=result, exc=exc, rc=rc, iterations=its, pending_tasks=pending,
@@ -378,6 +379,8 @@ def run_overlapping(spec: Spec, behs: List[Behaviour], cfg: Cfg, charts: List[An
             e = t.exception()
             if e is not None and is_control_flow(e):
                 cf_guard.note(e)
+    for rc in rcs:
+        rc.frozen = True
     loop.shutdown()
     cf_guard.check()
     return out
